@@ -279,3 +279,27 @@ Proof.
   - apply Forall_cons; [eexists; vm_compute; reflexivity | apply Forall_nil].
   - apply FA_here; [intros; discriminate | intros; discriminate |]. intros n H. vm_compute in H. discriminate H.
 Qed.
+
+(* the key is named AS WRITTEN (C17_map_value_error: mval_seg of the raw key k, whatever k' the key schema reads it as).
+   Non-vacuity with a key whose text is not the text of its value: limits: {"1kB": -1} under integer keys in bytes - the
+   key is 1024 after conversion, the error below it names "1kB", the key a workflow author wrote (seeded change C17-r2m3:
+   the segment built from the unserialized key says [1024]).  The same with "01" under plain integer keys. *)
+Definition c17_unit_key_schema : schema := SMap (SInt None None (Some unit_bytes)) (SInt (Some 0) None None) None None.
+Definition c17_unit_key_value : gval :=
+  VMap t_any_map false [(VStr TStr "2kB", VInt (TInt I64) 7); (VStr TStr "1kB", VInt (TInt I64) (-1))].
+Example C17_instance_key_as_written :
+  unser bool_words parse_units_float 2 c17_env (SInt None None (Some unit_bytes)) (VStr TStr "1kB") = Ok (vi64 1024) /\
+  fault_u bool_words parse_units_float c17_env 3 c17_unit_key_schema c17_unit_key_value ["[1kB]"] /\
+  unser bool_words parse_units_float 3 c17_env c17_unit_key_schema c17_unit_key_value = Err (mkErr true ["[1kB]"] EBound) /\
+  unser bool_words parse_units_float 3 c17_env (SMap (SInt None None None) (SInt (Some 0) None None) None None)
+    (VMap t_any_map false [(VStr TStr "01", VInt (TInt I64) (-1))]) = Err (mkErr true ["[01]"] EBound).
+Proof.
+  split; [vm_compute; reflexivity|]. split; [|split; vm_compute; reflexivity].
+  apply (FU_value bool_words parse_units_float c17_env 2 (SInt None None (Some unit_bytes)) (SInt (Some 0) None None) None None
+           t_any_map false [(VStr TStr "2kB", VInt (TInt I64) 7)] (VStr TStr "1kB") (VInt (TInt I64) (-1)) [] []).
+  - reflexivity.
+  - apply Forall_cons; [|apply Forall_nil]. split; eexists; vm_compute; reflexivity.
+  - apply Forall_nil.
+  - eexists; vm_compute; reflexivity.
+  - apply FU_leaf; [exact I|]. intros n H. vm_compute in H. discriminate H.
+Qed.
